@@ -404,7 +404,7 @@ where
             x[ind] -= self.two * self.dt;
             let below = g(self, (self.time + self.dt).real(), x.as_slice(), &mut self.data.clone())?;
             x[ind] += self.dt;
-            col.set_column(0, &((above + below) * denom));
+            col.set_column(0, &((above - below) * denom));
         }
 
         Ok(mat)
